@@ -361,9 +361,42 @@ func c20Do(s *c20Shared, op, step, gid int) error {
 			if err != nil {
 				return err
 			}
-			all, err := io.ReadAll(r)
-			if err != nil || string(all) != s.bytesV[k] {
-				return fmt.Errorf("shared bytes node %d AsLargeBytes reads %q (err %v)", k, all, err)
+			want := s.bytesV[k]
+			switch (step / len(s.bytesN)) % 3 {
+			case 0:
+				all, err := io.ReadAll(r)
+				if err != nil || string(all) != want {
+					return fmt.Errorf("shared bytes node %d AsLargeBytes reads %q (err %v)", k, all, err)
+				}
+			case 1: // size by seeking to the end, then the tail from an offset
+				size, err := r.Seek(0, io.SeekEnd)
+				if err != nil || size != int64(len(want)) {
+					return fmt.Errorf("shared bytes node %d: Seek(0, SeekEnd) = %d, %v; want %d", k, size, err, len(want))
+				}
+				off := int64(step % (len(want) + 1))
+				if _, err := r.Seek(off, io.SeekStart); err != nil {
+					return err
+				}
+				tail, err := io.ReadAll(r)
+				if err != nil || string(tail) != want[off:] {
+					return fmt.Errorf("shared bytes node %d: tail from %d reads %q (err %v), want %q", k, off, tail, err, want[off:])
+				}
+			default: // what a subset matcher does: slice the shared node, read the slice twice
+				from := int64(step % len(want))
+				to := from + int64(1+step%7)
+				if to > int64(len(want)) {
+					to = int64(len(want))
+				}
+				sn, err := selector.Slice{From: from, To: to}.Slice(s.bytesN[k])
+				if err != nil || sn == nil {
+					return fmt.Errorf("shared bytes node %d: Slice[%d,%d) = %v, %v", k, from, to, sn, err)
+				}
+				for rep := 0; rep < 2; rep++ {
+					got, err := sn.AsBytes()
+					if err != nil || string(got) != want[from:to] {
+						return fmt.Errorf("shared bytes node %d: Slice[%d,%d) read %d gives %q (err %v), want %q", k, from, to, rep, got, err, want[from:to])
+					}
+				}
 			}
 		}
 	case 14: // schema type methods
